@@ -83,7 +83,7 @@ def run_lockstep(pid, tier, slices=None, write_evidence=True):
         for cfg in sl['cfgs']:
             pairs.add((sl['zoo'], cfg))
     vbuild.build_many(sorted(pairs))
-    rdir = os.path.join(VERIF, 'evidence', 'replays')
+    rdir = os.path.join(vbuild.EVID, 'replays')
     os.makedirs(rdir, exist_ok=True)
     import glob
     if write_evidence:
@@ -146,7 +146,7 @@ def run_lockstep(pid, tier, slices=None, write_evidence=True):
     }
     if not write_evidence:
         return {'nviol': nviol, 'coverage': ev['coverage'], 'known': dict(known_seen)}
-    with open(os.path.join(VERIF, 'evidence', f'{pid}.json'), 'w') as fh:
+    with open(os.path.join(vbuild.EVID, f'{pid}.json'), 'w') as fh:
         json.dump(ev, fh, indent=1)
     print(f'{pid} {tier}: lock-step slices={len(results)} product-states={states} executions={execs} violations={nviol} '
           f'known={sum(known_seen.values())} exhaustive={ev["coverage"]["exhaustive"]} wall={ev["wall_s"]}s')
@@ -423,7 +423,7 @@ def run_copy(pid, tier):
             else:
                 pairs.add((sl['zoo'], cfg))
     vbuild.build_many(sorted(pairs))
-    rdir = os.path.join(VERIF, 'evidence', 'replays')
+    rdir = os.path.join(vbuild.EVID, 'replays')
     os.makedirs(rdir, exist_ok=True)
     import glob
     for old in glob.glob(os.path.join(rdir, f'{pid}-*.json')):
@@ -480,7 +480,7 @@ def run_copy(pid, tier):
                         'callbacks are attributed to a machine object by the address of the Fsm argument'],
         'wall_s': round(time.time() - t0, 2), 'violations': nviol,
     }
-    with open(os.path.join(VERIF, 'evidence', f'{pid}.json'), 'w') as fh:
+    with open(os.path.join(vbuild.EVID, f'{pid}.json'), 'w') as fh:
         json.dump(ev, fh, indent=1)
     print(f'{pid} {tier}: copy points={ev["coverage"]["states"]} continuations={conts} violations={nviol} known={sum(known_seen.values())} wall={ev["wall_s"]}s')
     return 1 if nviol else 0
@@ -573,7 +573,7 @@ def run_storage(pid, tier):
     if tier == 'thorough':
         # one level deeper for the types around the inline/heap boundary and the special classes
         jobs += [(be, t, depth + 1, 'asan') for be in ST_BACKENDS for t in ST_TYPES_DEEP]
-    rdir = os.path.join(VERIF, 'evidence', 'replays')
+    rdir = os.path.join(vbuild.EVID, 'replays')
     os.makedirs(rdir, exist_ok=True)
     import glob
     for old in glob.glob(os.path.join(rdir, f'{pid}-*.json')):
@@ -614,7 +614,7 @@ def run_storage(pid, tier):
                         'second pass of the same sequences under clang 14 MemorySanitizer (reads of uninitialised memory); the harness avoids non-template libstdc++ code so that the uninstrumented libstdc++.so does not blind it'],
         'wall_s': round(time.time() - t0, 2), 'violations': nviol,
     }
-    with open(os.path.join(VERIF, 'evidence', f'{pid}.json'), 'w') as fh:
+    with open(os.path.join(vbuild.EVID, f'{pid}.json'), 'w') as fh:
         json.dump(ev, fh, indent=1)
     print(f'{pid} {tier}: back-ends={len(ST_BACKENDS)} types={len(types)} depth={depth} sequences={seqs} violations={nviol} wall={ev["wall_s"]}s')
     return 1 if nviol else 0
@@ -645,7 +645,7 @@ def run_frontends(pid, tier):
     import subprocess
     spec = propsmod.PROPS[pid]
     t0 = time.time()
-    rdir = os.path.join(VERIF, 'evidence', 'replays')
+    rdir = os.path.join(vbuild.EVID, 'replays')
     os.makedirs(rdir, exist_ok=True)
     import glob
     for old in glob.glob(os.path.join(rdir, f'{pid}-*.json')):
@@ -716,7 +716,7 @@ def run_frontends(pid, tier):
                         'tokenizer grammar and bounds as written in puml/tokenizer.cpp; un-wrapped edge documents are counted, not judged'],
         'wall_s': round(time.time() - t0, 2), 'violations': nviol,
     }
-    with open(os.path.join(VERIF, 'evidence', f'{pid}.json'), 'w') as fh:
+    with open(os.path.join(vbuild.EVID, f'{pid}.json'), 'w') as fh:
         json.dump(ev, fh, indent=1)
     print(f'{pid} {tier}: front-end lock-step executions={cov["evaluations"]} tokenizer lines={tkres["lines"]} documents={tkres["documents"]} '
           f'guard expressions={gres.get("guard_expressions", 0)} violations={nviol} wall={ev["wall_s"]}s')
